@@ -22,7 +22,7 @@ import propkit
 import vlib
 
 MANIFEST = {
-  "text": "proof: for the transcribed compaction kernels: dof_cdof/cdof_dof are mutually inverse, order preserving on the dofs of awake trees and -1 elsewhere (no overflow; prefix form under overflow); NVMAX bit iff active dofs > nvmax and ncdof = min; all trees awake -> identity maps; the gathered inertia is the identity, the gathered Jacobian and vectors are zero on the padding [ncdof, nvmax_pad); hence (over R, any row cost) the padded cost = active cost + 1/2|padding|^2 and its minimiser is (argmin, 0); scatter writes exactly 0 on frozen dofs; termination tests with nv->nvmax_pad, tol->tol*nv/nvmax_pad are the full solve's (over the regenerated _rescale). The linesearch gradient tolerance is preserved too (ls_tolerance is not rescaled; proved, with the pre-fix double scaling as a refuting regression witness); over a sparse full model a world with nefc = 0 has its compacted qfrc_constraint workspace overwritten with zeros by _solve_init_dof (flag m.is_sparse or _sparse_compact(ctx), checked on the source). Not proved: convergence of the Newton iteration, float32 rounding, the active block of cM/cJ equals P M P^T / J P^T (tested exactly by the correspondence)",
+  "text": "proof: for the transcribed compaction kernels: update_active_dofs resets every entry of both maps (launch over max(nv, nvmax_pad), pinned on the source) so it does not depend on the maps left by the previous call and sleeping dofs map to -1 also for nv > nvmax_pad; dof_cdof/cdof_dof are mutually inverse, order preserving on the dofs of awake trees and -1 elsewhere (no overflow; prefix form under overflow); NVMAX bit iff active dofs > nvmax and ncdof = min; all trees awake -> identity maps; the gathered inertia is the identity, the gathered Jacobian and vectors are zero on the padding [ncdof, nvmax_pad); hence (over R, any row cost) the padded cost = active cost + 1/2|padding|^2 and its minimiser is (argmin, 0); scatter writes exactly 0 on frozen dofs; termination tests with nv->nvmax_pad, tol->tol*nv/nvmax_pad are the full solve's (over the regenerated _rescale). The linesearch gradient tolerance is preserved too (ls_tolerance is not rescaled; proved, with the pre-fix double scaling as a refuting regression witness); over a sparse full model a world with nefc = 0 has its compacted qfrc_constraint workspace overwritten with zeros by _solve_init_dof (flag m.is_sparse or _sparse_compact(ctx), checked on the source). Not proved: convergence of the Newton iteration, float32 rounding, the active block of cM/cJ equals P M P^T / J P^T (tested exactly by the correspondence)",
   "note": "trusted: Coq kernel; hand transcription Model/Compact.v (tied by exact per-run correspondence with the real kernels); translator for _rescale; real-number axioms of Coq's Reals",
   "technique": "Rocq proof over a hand-written executable model (C, exact integer correspondence with the launched kernels) + T for _rescale + differential oracle compact vs full solve",
   "engine": "coq",
@@ -256,7 +256,54 @@ def source_facts(res, sk):
   res.obligation("S: solve_compact rescales the current m.opt.tolerance by float(m.nv)/float(nvp) and passes ls_tolerance through", ok2, f"launch {[(x['ins'], x['outs']) for x in t]}; replace(m.opt) kwargs {[x['kwargs'] for x in r]}")
   if not ok2:
     bad.append("solver.solve_compact:tolerance")
+  u = find(prog.get("island.update_active_dofs", {}).get("body", []), lambda st: st["k"] == "launch" and st["kernel"] == "island._reset_compact_maps", [])
+  ok3 = len(u) == 1 and u[0]["dim"].replace(" ", "") == "(d.nworld,max(m.nv,d.nvmax_pad))" and u[0]["ins"] == ["m.nv", "d.nvmax_pad"]
+  res.obligation("S: update_active_dofs resets the maps over dim (d.nworld, max(m.nv, d.nvmax_pad)) (Model: reset_dim)", ok3, str([(x["dim"], x["ins"]) for x in u]))
+  if not ok3:
+    bad.append("island.update_active_dofs:reset dim")
   return bad
+
+
+def stale_map_cases(res, rng, n):
+  """island.update_active_dofs (host launch geometry included) on a Data whose maps hold junk / the maps of a
+  previous awake set, with nvmax_pad < nv: model update_active_dofs with dim = reset_dim nv nvp."""
+  import mujoco
+  import warp as wp
+
+  import mujoco_warp as mjw
+  from mujoco_warp._src import island
+
+  lines, meta = [], []
+  for k in range(n):
+    xml = scene(rng, int(rng.integers(3, 6)), arm=bool(k % 2), slider=True)
+    mjm = mujoco.MjModel.from_xml_string(xml)
+    mjd = mujoco.MjData(mjm)
+    mujoco.mj_forward(mjm, mjd)
+    m = mjw.put_model(mjm)
+    m.opt.warn_overflow = False
+    nv, ntree = m.nv, m.ntree
+    nvmax = int(rng.integers(6, 16))  # nvmax_pad = 16 < nv (nv >= 19)
+    d = mjw.put_data(mjm, mjd, nworld=2, nvmax=nvmax)
+    nvp = d.nvmax_pad
+    adr, num = m.tree_dofadr.numpy(), m.tree_dofnum.numpy()
+    for rep in range(3):
+      if rep == 0:
+        d.dof_cdof.fill_(5)
+        d.cdof_dof.fill_(7)
+      dc0, cd0 = d.dof_cdof.numpy().copy(), d.cdof_dof.numpy().copy()
+      aw = rng.choice([0, 0, 1], (2, ntree)).astype(np.int32)
+      aw[0, ntree - 1 - (rep % 2)] = 1 if rep < 2 else 0  # a high-index tree awake, later asleep
+      d.tree_awake = wp.array(aw, dtype=int)
+      ovf0 = np.zeros(2, dtype=np.int32)
+      d.overflow.assign(ovf0)
+      island.update_active_dofs(m, d)
+      ncd, ovf, dc, cd = d.ncdof.numpy(), d.overflow.numpy(), d.dof_cdof.numpy(), d.cdof_dof.numpy()
+      for w in range(2):
+        exp = [int(ncd[w]), int(ovf[w])] + dc[w].tolist() + cd[w].tolist()
+        lines.append(f"tvz (obs_compact (update_active_dofs (reset_dim {nv} {nvp}) {ntree} {zl(adr)} {zl(num)} {zl(aw[w])} {nvmax} {nv} {nvp} 0 {zl(dc0[w])} {zl(cd0[w])}))%Z {zl(exp)}")
+        meta.append({"kind": "update_active_dofs_reused_data", "xml": xml, "nvmax": nvmax, "nv": nv, "tree_awake": aw[w].tolist(), "previous_dof_cdof": dc0[w].tolist()})
+        res.nontrivial(("stale", nv, nvp, rep))
+  return lines, meta
 
 
 def solver_entry_cases(res, rng, n):
@@ -529,6 +576,106 @@ def runtime_tolerance_case(tol_mjm, tol_rt, states_seed, nworld=4):
   return nb.tolist(), d.solver_niter.numpy().tolist(), rel.tolist(), float(d.ctol.numpy()[0])
 
 
+def reuse_sequence(xml, sparse, nvmax, masks, qvel, poisoned=True):
+  """Drive ONE Data (SLEEP-free model, explicit compact calls) through the awake masks; after each mask compare
+  with a FRESH Data in the same mask and with the full solve.  Returns the list of failures (dicts)."""
+  import mujoco
+  import warp as wp
+
+  import mujoco_warp as mjw
+  from mujoco_warp._src import island
+  from mujoco_warp._src import solver as S
+
+  mjm = mujoco.MjModel.from_xml_string(xml)
+  mjm.opt.jacobian = mujoco.mjtJacobian.mjJAC_SPARSE if sparse else mujoco.mjtJacobian.mjJAC_DENSE
+  mjd = mujoco.MjData(mjm)
+  mjd.qvel[:] = qvel
+  mujoco.mj_forward(mjm, mjd)
+  m = mjw.put_model(mjm)
+  m.opt.warn_overflow = False
+  nv, ntree = m.nv, m.ntree
+  adr, num = m.tree_dofadr.numpy(), m.tree_dofnum.numpy()
+
+  def fresh():
+    dk = mjw.put_data(mjm, mjd, nworld=1, nvmax=nvmax)
+    mjw.forward(m, dk)
+    return dk
+
+  def apply(dk, aw):
+    dk.tree_awake = wp.array(np.asarray([aw], dtype=np.int32), dtype=int)
+    dk.overflow.zero_()
+    island.update_active_dofs(m, dk)
+    for f in ("qacc", "qfrc_constraint", "qacc_smooth"):
+      getattr(dk, f).fill_(3.0)
+    if poisoned:
+      poison(dk)
+    S.smooth_solve_compact(m, dk)
+    qs = dk.qacc_smooth.numpy()[0].copy()
+    S.solve_compact(m, dk)
+    return {"dof_cdof": dk.dof_cdof.numpy()[0].copy(), "ncdof": int(dk.ncdof.numpy()[0]), "overflow": int(dk.overflow.numpy()[0]), "qacc_smooth": qs, "qacc": dk.qacc.numpy()[0].copy(), "qfrc_constraint": dk.qfrc_constraint.numpy()[0].copy()}
+
+  d = fresh()
+  base_smooth = d.qacc_smooth.numpy()[0].copy()  # full smooth solve (M is block diagonal per tree)
+  fails = []
+  for step, aw in enumerate(masks):
+    got = apply(d, aw)
+    ref = apply(fresh(), aw)
+    frozen = np.concatenate([np.arange(adr[t], adr[t] + num[t]) for t in range(ntree) if aw[t] != 1] or [np.zeros(0, dtype=int)]).astype(int)
+    active = np.setdiff1d(np.arange(nv), frozen)
+    what = None
+    if got["overflow"] & NVMAX_BIT:
+      what = f"NVMAX bit set with {active.size} active dofs <= nvmax {nvmax}"
+    elif not np.array_equal(got["dof_cdof"], ref["dof_cdof"]) or got["ncdof"] != ref["ncdof"]:
+      what = f"dof_cdof of the reused Data {got['dof_cdof'].tolist()} differs from a fresh Data {ref['dof_cdof'].tolist()}"
+    else:
+      for f in ("qacc", "qacc_smooth", "qfrc_constraint"):
+        if frozen.size and np.any(got[f][frozen] != 0.0):
+          what = f"{f} of frozen dofs {frozen.tolist()} is {got[f][frozen].tolist()}"
+          break
+        ok, err = close(ref[f], got[f], 1e-4)
+        if not ok:
+          what = f"{f} of the reused Data differs from a fresh Data in the same sleep state by {err:.3g}"
+          break
+      if what is None:
+        ok, err = close(base_smooth[active], got["qacc_smooth"][active], 1e-3)
+        if not ok:
+          what = f"qacc_smooth of the awake trees differs from the full solve by {err:.3g}"
+    if what:
+      fails.append({"step": step, "tree_awake": list(map(int, aw)), "what": what})
+  return fails, nv, d.nvmax_pad
+
+
+def reuse_oracle(res, rng, quick):
+  out = []
+  for k in range(2 if quick else 8):
+    nfree = int(rng.integers(4, 6))
+    xml = scene(rng, nfree, arm=bool(k % 2), slider=True)
+    import mujoco
+
+    mjm = mujoco.MjModel.from_xml_string(xml)
+    ntree, nv = mjm.ntree, mjm.nv
+    num = [int(x) for x in mjm.tree_dofnum]
+    nvmax = 12  # nvmax_pad = 16 < nv (>= 25)
+    qvel = rng.normal(0, 0.3, nv).astype(np.float32).tolist()
+    masks = []
+    for s in range(5 if quick else 10):  # alternate: a high-index tree awake, then asleep with a low one awake
+      aw = [0] * ntree
+      hi = ntree - 1 - int(rng.integers(0, 3))
+      lo = int(rng.integers(0, 2))
+      for t in ([hi, ntree - 1] if s % 2 == 0 else [lo]):
+        if sum(num[u] for u in range(ntree) if aw[u]) + num[t] <= nvmax:
+          aw[t] = 1
+      masks.append(aw)
+    for sparse in (False, True):
+      fails, nv_, nvp = reuse_sequence(xml, sparse, nvmax, masks, qvel)
+      res.count(len(masks))
+      res.nontrivial(("reuse", k, sparse, nv_, nvp))
+      if fails:
+        f = fails[0]
+        out.append(("C38:reused-data-stale-compaction-map", f"one Data driven through awake sets {masks} (nv={nv_}, nvmax={nvmax}, nvmax_pad={nvp}, {'sparse' if sparse else 'dense'}): at step {f['step']} (tree_awake {f['tree_awake']}) {f['what']}", {"kind": "reuse", "xml": xml, "sparse": sparse, "nvmax": nvmax, "masks": masks, "qvel": qvel, "step": f["step"]}))
+  return out
+
+
 def rescale_gen(rng, n):
   nv = rng.integers(1, 120, n).astype(np.int32)
   mi = (10.0 ** rng.uniform(-3, 2, n)).astype(np.float32)
@@ -562,7 +709,8 @@ def run(res):
   l2, m2 = gather_cases(res, rng, 6 if quick else 40)
   l3, m3 = pad_cases()
   l4, m4 = solver_entry_cases(res, rng, 6 if quick else 40)
-  lines, meta = l1 + l2 + l3 + l4, m1 + m2 + m3 + m4
+  l5, m5 = stale_map_cases(res, rng, 3 if quick else 20)
+  lines, meta = l1 + l2 + l3 + l4 + l5, m1 + m2 + m3 + m4 + m5
   vlib.log(f"[C38] real kernels launched ({len(lines)} cases), {time.time() - res.t0:.0f}s")
   dis = []
   if okg:
@@ -598,6 +746,7 @@ def run(res):
     if bad:
       fails.append(("C38:compact-maps", bad, c))
   fails += oracle(res, rng, quick)
+  fails += reuse_oracle(res, rng, quick)
   # (f) a world without constraint rows: the compact solve must not read a workspace it never wrote
   for jac in ("sparse", "dense"):
     for fill in (1.0, float("nan")):
@@ -669,6 +818,13 @@ def replay(res, path):
     bad = not ok or not np.isfinite(qfc).all() or float(np.abs(qfc).max()) >= 1e-3
     print("FAIL reproduced" if bad else "not reproduced")
     return 1 if bad else 0
+  if r.get("kind") == "reuse":
+    fails, nv_, nvp = reuse_sequence(r["xml"], bool(r["sparse"]), int(r["nvmax"]), r["masks"], r["qvel"])
+    print(f"nv {nv_} nvmax {r['nvmax']} nvmax_pad {nvp} masks {r['masks']}")
+    for f in fails:
+      print("step", f["step"], "tree_awake", f["tree_awake"], ":", f["what"][:300])
+    print("FAIL reproduced" if fails else "not reproduced")
+    return 1 if fails else 0
   if r.get("kind") == "runtime_tol":
     nb, nc, rel, ctol = runtime_tolerance_case(float(r["mjm_tolerance"]), float(r["model_tolerance_at_solve"]), int(r["states_seed"]))
     print(f"mjm.opt.tolerance {r['mjm_tolerance']} at make_data (d.ctol = {ctol:.4g}), m.opt.tolerance {r['model_tolerance_at_solve']} at solve time")
